@@ -1716,6 +1716,14 @@ class Optimizer:
             <= self.time_consts["max_consumed_culled_kcals_each_month"][month]
         )
 
+        # Meat cannot be eaten before it has been slaughtered: what has been eaten so far
+        # (total minus what is left) cannot exceed the running total slaughtered so far.
+        conditions["Meat_Eaten_Cumulative_Maximum"] = (
+            self.consts_for_optimizer["meat_summed_consumption"]
+            - variables["meat_end"][month]
+            <= self.time_consts["max_consumed_culled_kcals_each_month"][month]
+        )
+
         return conditions
 
     def add_meat_to_model_no_storage(self, month, variables):
